@@ -127,7 +127,7 @@ Definition finish (st : state) : state * list output :=
   | VOk =>
       match key_list (pkeys st) parties with
       | None => (set_ph st Panicked, [])
-      | Some l => if crosscheck l then (set_ph st (Done (sk st) l (tpk_of l)), [Return (ROk (sk st) l (tpk_of l))])
+      | Some l => if crosscheck l then let tk := tpk_of l in (set_ph st (Done (sk st) l tk), [Return (ROk (sk st) l tk)])
                   else (set_ph st Failed, [Return RErr])
       end
   end.
